@@ -2,11 +2,19 @@
 import glob
 import os
 
+from fractions import Fraction as Fr
+
+import mir_eval
+
 import relcheck as R
 import suites as SU
+from core import Case
 from props import _relational
 
 PID = "C06"
+# C06 hosts the tie-by-regeneration of util.f_measure: harness/translate/scalars.py re-emits lean/MirGen/Scalars.lean from
+# the source on every run and Props/C06_Gen.lean proves `Mir.Gen.util.f_measure = <hand model>` for all arguments
+TRANSLATOR_PARTS = ["scalars"]
 _here = os.path.dirname(os.path.abspath(__file__))
 _props = os.path.join(os.path.dirname(os.path.dirname(_here)), "lean", "MirProofs", "Props")
 LEAN_MODULES = ["MirProofs.Props.C06"] + sorted(
@@ -27,3 +35,74 @@ CHECKERS, ORACLES = _relational.make(R.check_swap, self_inputs=False)
 _xc, _xo = _relational.extra(PID)
 CHECKERS.update(_xc)
 ORACLES.update(_xo)
+
+
+# ----------------------------------------------------------------------------------------
+# util.f_measure as REGENERATED from the source (driver op `gen.scalar`) vs the real function: exercises the translator's
+# own semantic assumptions (float `/` raising ZeroDivisionError, `**`, the `== 0 and == 0` corner) on the exact lattice
+
+_BETAS = [Fr(1), Fr(1, 2), Fr(2), Fr(1, 4), Fr(4), Fr(3), Fr(3, 2), Fr(0), Fr(-1, 2)]
+
+
+def _fm_case(p, r, b, tag):
+    return Case("gen.scalar", ["util.f_measure", p, r, b],
+                lambda p=p, r=r, b=b: mir_eval.util.f_measure(float(p), float(r), float(b)),
+                tag=tag, info={"p": str(p), "r": str(r), "beta": str(b)}, nontrivial=(p != 0 or r != 0))
+
+
+def suite_gen_f_measure(rng, tier, shard, nshards):
+    cases = []
+    for b in _BETAS:                       # the corners, for every beta
+        cases.append(_fm_case(Fr(0), Fr(0), b, "corner p=r=0"))
+        cases.append(_fm_case(Fr(1), Fr(1), b, "corner p=r=1"))
+        cases.append(_fm_case(Fr(1, 2), Fr(0), b, "corner r=0"))      # beta = 0: ZeroDivisionError
+        cases.append(_fm_case(Fr(0), Fr(1, 2), b, "corner p=0"))
+    cases.append(_fm_case(Fr(1), Fr(-1), Fr(1), "corner p+r=0"))       # ZeroDivisionError off the documented domain
+    n = 60 if tier == "quick" else 3000
+    for _ in range(n):
+        p, r = Fr(rng.randint(0, 32), 32), Fr(rng.randint(0, 32), 32)
+        b = rng.choice(_BETAS)
+        cases.append(_fm_case(p, r, b, "beta=%s" % b))
+    for i, c in enumerate(cases):
+        if i % nshards == shard:
+            yield c
+
+
+SUITES["gen_scalar.f_measure"] = suite_gen_f_measure
+
+
+def check_f_measure_swap(inp):
+    """C06 on util.f_measure itself (real code): exchanging precision and recall while exchanging the weight beta for
+    1/beta does not change F (at beta = 1: plain symmetry); the zero corner returns 0 in both orders."""
+    p, r, b = float(Fr(inp["p"])), float(Fr(inp["r"])), float(Fr(inp["beta"]))
+    if not (p >= 0 and r >= 0 and b > 0):
+        return None
+    try:
+        a = mir_eval.util.f_measure(p, r, b)
+        c = mir_eval.util.f_measure(r, p, 1.0 / b)
+    except Exception as e:  # noqa: BLE001
+        return "f_measure raises %s on precision=%r recall=%r beta=%r (or swapped)" % (type(e).__name__, p, r, b)
+    if not abs(a - c) <= 1e-9:
+        return "f_measure(%r, %r, %r) = %r but f_measure(%r, %r, %r) = %r" % (p, r, b, a, r, p, 1.0 / b, c)
+    if p == 0 and r == 0 and a != 0:
+        return "f_measure(0, 0, %r) = %r" % (b, a)
+    return None
+
+
+def gen_f_measure_swap(rng, tier, shard, nshards, boost):
+    n = (40 if tier == "quick" else 2000) * boost
+    yield {"p": "0", "r": "0", "beta": "1"}
+    for _ in range(n):
+        yield {"p": str(Fr(rng.randint(0, 32), 32)), "r": str(Fr(rng.randint(0, 32), 32)),
+               "beta": str(rng.choice([Fr(1), Fr(1), Fr(1, 2), Fr(2), Fr(1, 4), Fr(4)]))}
+
+
+CHECKERS["util.f_measure:swap"] = check_f_measure_swap
+ORACLES["util.f_measure:swap"] = gen_f_measure_swap
+
+
+def classify(suite, d):
+    """a disagreeing gen.scalar case is tried against the swap relation on the real code"""
+    if suite == "gen_scalar.f_measure":
+        return "util.f_measure:swap", dict(d["info"])
+    return None
